@@ -8,6 +8,7 @@ CONSTANTS
   MaxWrite = 1
   Validates = {FALSE, TRUE}
   SetClass = "plain"
+  UpdEnabled = {TRUE}
   Deviations = {}
 VIEW vw
 INVARIANT NoViolation
